@@ -189,17 +189,25 @@ def api_recv(checks=None, nmax=12, only=None):
 
 
 def hs_dispatch(checks=None, n=32, only=None):
-    """parseSSLHandshake with DTLS / TLS reassembly over parser stubs"""
-    def loops(dtls):
+    """parseSSLHandshake with DTLS / TLS reassembly over parser stubs.
+    quick: small variant (16-byte DTLS record, 8-byte reassembly buffer, one
+    stored fragment; 8-byte TLS record; 24-byte heap blocks); thorough: 20 / 12
+    byte records, 16-byte reassembly buffer, two stored fragments"""
+    def loops(dtls, nrec, slot, nfr):
         f = "parseSSLHandshake"
-        msgs = 4 if dtls else (12 // 4 + 1)
+        msgs = 4 if dtls else (nrec // 4 + 1)
         return {f + ":/goto parseHandshake/": msgs,
-                "dtlsHsHashFragMsg:/while \\(i < MAX_FRAGMENTS\\)/": 30,
+                "dtlsHsHashFragMsg:/while \\(i < MAX_FRAGMENTS\\)/": (nfr + 1) * (nfr + 1) + 18,
                 "dtlsSeenFrag:/for \\(i = 0/": 17, "dtlsInitFrag:/for \\(i = 0/": 17,
                 "vf_harness:/for \\(i = 0; i < MAX_FRAGMENTS/": 17, "vf_harness:/for \\(i = 0; i < NFR/": 4,
                 "vf_harness:/for \\(a = 0/": 4, "vf_harness:/for \\(b = 0/": 4,
-                "memcmp.0": 10, "memcmpct:/./": 49, "vf_bytes:/./": n + 2,
-                "memmove:/for \\(i = 0/": 49, "realloc:/for \\(i = 0/": 49, "calloc:/for \\(i = 0/": 49, "malloc:/for \\(j = /": 9, "vf_heap_slot_of:/for \\(j = /": 9}
+                "memcmp.0": 10, "memcmpct:/./": slot + 1, "vf_bytes:/./": 34,
+                "memmove:/for \\(i = 0/": slot + 1, "realloc:/for \\(i = 0/": slot + 1, "calloc:/for \\(i = 0/": slot + 1, "malloc:/for \\(j = /": 9, "vf_heap_slot_of:/for \\(j = /": 9}
+    def case(name, tier, dtls, nrec, fm, nfr, slot):
+        return dict(name=name, tier=tier,
+                    defs={"VF_VER": "(v_dtls_1_2|v_tls_negotiated)" if dtls else "(v_tls_1_2|v_tls_negotiated)", "VF_DTLS": dtls, "VF_N": nrec,
+                          "VF_FM": fm, "NFR": nfr, "VF_HEAP_SLOT": slot},
+                    unwindset=loops(dtls, nrec, slot, nfr))
     h = dict(
         name="hs_dispatch", dir="C08", src="hs_dispatch.c", checks=checks if checks is not None else MEMCHECKS,
         units=["matrixssl/dtls.c", "matrixssl/hsNegotiateVersion.c"],
@@ -209,12 +217,12 @@ def hs_dispatch(checks=None, n=32, only=None):
         termination_loops=["dtlsHsHashFragMsg"], native_timeout_s=20, cap_s=1800,
         assumptions=[
             "hs_dispatch: the per-message parsers of hsDecode.c are contract stubs (cursor anywhere in [c, end], any documented status, arbitrary next hsState); handshake-hash functions are stubs that read both ends of the range they are given; sslResetContext is a no-op",
-            "hs_dispatch: RI-frag (proved preserved by the step): a DTLS reassembly in progress has fragMessage of fragLenStored bytes (16 here), 1..2 stored fragments that are non-empty, inside the buffer, pairwise disjoint, listed without holes, fragTotal = sum < fragLenStored; TLS: fragIndex < fragTotal = size of fragMessage; session-ticket pointer/length agree; record of 1..%d decrypted bytes" % n,
+            "hs_dispatch: RI-frag (proved preserved by the step): a DTLS reassembly in progress has fragMessage of fragLenStored bytes (8 quick / 16 thorough), 1 (quick) or 1..2 (thorough) stored fragments that are non-empty, inside the buffer, pairwise disjoint, listed without holes, fragTotal = sum < fragLenStored; TLS: fragIndex < fragTotal = size of fragMessage; session-ticket pointer/length agree; record of 1..16 / 8 (quick) or 1..20 / 12 (thorough) decrypted bytes; heap blocks <= 24 / 48 bytes",
         ],
         unwind=20,
-        cases=[dict(name="dtls12", defs={"VF_VER": "(v_dtls_1_2|v_tls_negotiated)", "VF_DTLS": 1, "VF_N": 20}, unwindset=loops(1)),
-               dict(name="tls12", defs={"VF_VER": "(v_tls_1_2|v_tls_negotiated)", "VF_DTLS": 0, "VF_N": 12}, unwindset=loops(0))],
+        cases=[case("dtls12", "quick", 1, 16, 8, 1, 24), case("tls12", "quick", 0, 8, 8, 1, 24),
+               case("dtls12_large", "thorough", 1, 20, 16, 2, 48), case("tls12_large", "thorough", 0, 12, 16, 2, 48)],
     )
     if only:
-        h["cases"] = [c for c in h["cases"] if c["name"] in only]
+        h["cases"] = [c for c in h["cases"] if c["name"].split("_")[0] in only]
     return h
